@@ -269,6 +269,15 @@ def c09(ctx):
         for pre in ('', 'iQEz\n'):
             add('armor-in-signature', '-----BEGIN PGP SIGNED MESSAGE-----\nHash: SHA512\n\nDATA a 0\n-----BEGIN PGP SIGNATURE-----\n\n' + pre + inner
                 + '\nAAAA\n-----END PGP SIGNATURE-----\n')
+    # dash-escaped armor lines inside the signed part: they are text (a malformed entry), never the start of the signature block
+    for inner in ['- -----BEGIN PGP SIGNATURE-----', '- -----END PGP SIGNATURE-----', '- -----BEGIN PGP SIGNED MESSAGE-----', '- - DATA c 2',
+                  '- -----FOO-----', '-  -----BEGIN PGP SIGNATURE-----']:
+        for before in ('', 'DATA a 0\n'):
+            for after in ('', 'DATA z 9\n', 'DATA z 9\n-----BEGIN PGP SIGNATURE-----\n\nAAAA\n'):
+                add('escaped-armor-in-signed-part', '-----BEGIN PGP SIGNED MESSAGE-----\nHash: SHA512\n\n' + before + inner + '\n' + after
+                    + '-----END PGP SIGNATURE-----\n')
+                add('escaped-armor-in-signed-part', '-----BEGIN PGP SIGNED MESSAGE-----\nHash: SHA512\n\n' + before + inner + '\n' + after
+                    + '-----BEGIN PGP SIGNATURE-----\n\nAAAA\n-----END PGP SIGNATURE-----\n')
     # every escape form over its value range
     for v in range(256):
         add('esc-x', 'DATA a\\x%02X 0\n' % v)
